@@ -32,7 +32,7 @@ def lane(i):
         except queue.Empty:
             break
         d = os.path.join(ROOT, sid)
-        tests = sorted(glob.glob(os.path.join(d, "demo", "ref[BCD]_*.rs")))
+        tests = sorted(glob.glob(os.path.join(d, "demo", "ref[BCDE]_*.rs")))
         names = [os.path.basename(t)[:-3] for t in tests]
         for t in tests:
             shutil.copy(t, os.path.join(wt, "ts-rs", "tests"))
